@@ -78,13 +78,13 @@ func prefixRelated(a, b string) bool {
 // key only (never for the verdict): two different isolation breaks get two different keys. fakesql.Like is used
 // here merely to tell "the addressed id, read as a LIKE pattern, covers the foreign id" from "unrelated".
 //
-// Roots differ: a root nested under the addressed root ("cdc/x" under "cdc") is named first. Otherwise, for a read
+// Roots differ: one root being a path inside the other ("cdc/x" and "cdc", either way round) is named first. Otherwise, for a read
 // (forRead) the way the two roots relate is named before "same task id" - a task-filtered read can only ever
 // return records of that task id, so the coincidence says nothing -, for a write the coinciding task id is named
 // first (a write that ignores the root hits whatever root holds that id).
 func relation(f tuple, a addr, forRead bool) string {
 	if f.Root != a.Root {
-		nested := strings.HasPrefix(f.Root, strings.TrimSuffix(a.Root, "/")+"/")
+		nested := strings.HasPrefix(f.Root, strings.TrimSuffix(a.Root, "/")+"/") || strings.HasPrefix(a.Root, strings.TrimSuffix(f.Root, "/")+"/")
 		sameTask := a.Task != "" && f.Task == a.Task && a.hasKind(f.Kind)
 		pattern := hasPat(a.Root) && fakesql.Like(f.Root, a.Root+"%")
 		prefix := prefixRelated(f.Root, a.Root)
@@ -129,7 +129,7 @@ func relation(f tuple, a addr, forRead bool) string {
 	return "addressed-record"
 }
 
-const relNested = "other-root-nested-in-addressed-root"
+const relNested = "other-root-nested-path"
 
 // ---- canonical JSON ----
 
